@@ -27,5 +27,6 @@ from . import c_ports            # noqa: F401
 from . import b_ports            # noqa: F401
 from . import c_syx              # noqa: F401
 from . import b_misc             # noqa: F401
+from . import b_parser           # noqa: F401
 from . import c_backend          # noqa: F401
 from . import c_sockets         # noqa: F401
